@@ -13,8 +13,8 @@ VERIF = os.path.dirname(os.path.dirname(os.path.abspath(__file__)))
 REPO = os.environ.get('VERIF_REPO', '/repo')
 COQ = os.path.join(VERIF, 'coq')
 BUILD = os.path.join(VERIF, 'build')
-EVID = os.path.join(VERIF, 'evidence')
-REPLAYS = os.path.join(VERIF, 'replays')
+EVID = os.environ.get('VERIF_EVIDENCE_DIR') or os.path.join(VERIF, 'evidence')      # the seeded-change runner points these elsewhere
+REPLAYS = os.environ.get('VERIF_REPLAYS_DIR') or os.path.join(VERIF, 'replays')
 NPROC = max(2, min(16, os.cpu_count() or 4))
 
 # --------------------------------------------------------------------------------------------
@@ -518,6 +518,8 @@ def drive(mod, tier, seed, replay=None):
     if ktie.get('unproved') or ktie.get('untranslatable'):
         # a kernel bridge that no longer proves forces the escalation as well (the digests say the same, this is the semantic version)
         changed = changed + [f'kernel:{n}' for n, _ in ktie.get('unproved', []) + ktie.get('untranslatable', []) if f'kernel:{n}' not in changed]
+    if os.environ.get('VERIF_FORCE_ESCALATE') == '1' and not changed:
+        changed = ['(forced by VERIF_FORCE_ESCALATE)']      # self-test of the escalated generators on the unchanged tree
     out.log['changed_modelled_functions'] = changed[:40]
     escalated = 0
     if changed and tier == 'quick' and not replay and os.environ.get('VERIF_NO_ESCALATE') != '1':
